@@ -242,9 +242,11 @@ func execAtomicWrite(ops []string, mon *Mon) []string {
 			}
 			awLimit(lim)
 			done := make(chan struct{})
+			fin := make(chan struct{})
 			if len(f) > 3 && f[3] == "transient" {
 				mon.Tag("history-write-cut-transient")
 				go func() {
+					defer close(fin) // the op must not end before this goroutine has: it would lift the limit of the NEXT op
 					for {
 						select {
 						case <-done:
@@ -266,6 +268,9 @@ func execAtomicWrite(ops []string, mon *Mon) []string {
 			}
 			err := sh.Save()
 			close(done)
+			if len(f) > 3 && f[3] == "transient" {
+				<-fin
+			}
 			awLimit(-1)
 			got := awRead(path)
 			cls := "other"
